@@ -5,6 +5,7 @@
 package jsonclient
 
 import (
+	"math"
 	"bytes"
 	"context"
 	"errors"
@@ -115,7 +116,7 @@ func Harness_C13_retryLoop() {
 			switch kind {
 			case 1:
 				secs = vI64("retry-after-seconds")
-				vAssume(secs >= 0 && secs < 1<<31)
+				vAssume(secs >= 0) // every non-negative int64, also those too long for a time.Duration
 				ra = vDecStr(secs)
 			case 2:
 				ra = "Wed, 21 Oct 2065 07:28:00 GMT"
@@ -212,7 +213,11 @@ func Harness_C13_retryLoop() {
 				case 0, 3:
 					vAssert(bo.overrides[si] == nil, "no usable Retry-After: default back-off")
 				case 1:
-					vAssert(bo.overrides[si] != nil && *bo.overrides[si] == time.Duration(raSeconds[i])*time.Second, "Retry-After seconds reach the back-off unchanged")
+					if raSeconds[i] <= math.MaxInt64/int64(time.Second) {
+						vAssert(bo.overrides[si] != nil && *bo.overrides[si] == time.Duration(raSeconds[i])*time.Second, "Retry-After seconds reach the back-off unchanged")
+					} else {
+						vAssert(bo.overrides[si] != nil && *bo.overrides[si] >= time.Duration(math.MaxInt64/int64(time.Second))*time.Second, "a Retry-After too long for a Duration asks for the longest wait, never for a shorter or negative one")
+					}
 				case 2:
 					vAssert(bo.overrides[si] != nil, "Retry-After HTTP date becomes a wait until that date")
 				}
